@@ -122,6 +122,16 @@ type serverConn struct {
 
 	closer chan struct{}
 
+	// writeGone is closed when the write loop has returned. Nothing takes
+	// frames off the queue after that, so nothing may wait to put one on.
+	writeGone chan struct{}
+
+	// writeLimit, in nanoseconds, is how long one write to the socket may
+	// take; zero means as long as it likes. It is set once the connection is
+	// being given up: a peer that has stopped reading must not be able to
+	// hold the goroutines of the connection, and its handler, for ever.
+	writeLimit atomic.Int64
+
 	debug  bool
 	logger fasthttp.Logger
 }
@@ -141,6 +151,7 @@ func (sc *serverConn) Handshake() error {
 func (sc *serverConn) Serve() error {
 	sc.closer = make(chan struct{}, 1)
 	sc.writeStop = make(chan struct{})
+	sc.writeGone = make(chan struct{})
 	sc.handlerDone = make(chan *Stream, 128)
 	sc.handlerStop = make(chan struct{})
 	// Created disarmed. time.NewTimer(0) fires at once, and with no read
@@ -184,6 +195,9 @@ func (sc *serverConn) Serve() error {
 		defer func() {
 			_ = sc.c.Close()
 		}()
+
+		// Whoever is waiting to queue a frame would wait for good.
+		defer close(sc.writeGone)
 
 		sc.writeLoop()
 	}()
@@ -1071,6 +1085,13 @@ func (sc *serverConn) writeGoAway(strm uint32, code ErrorCode, message string) {
 
 	fr.SetBody(ga)
 
+	// A connection error is the end of the connection whether or not the peer
+	// is still reading. From here on no write may park: this frame has to get
+	// on the queue behind whatever the write loop is stuck on.
+	if code != NoError {
+		sc.limitWrites(writeDrainTimeout)
+	}
+
 	sc.write(fr)
 
 	if strm != 0 {
@@ -1831,6 +1852,18 @@ func (sc *serverConn) write(fr *FrameHeader) {
 	case sc.writer <- fr:
 	case <-sc.writeStop:
 		ReleaseFrameHeader(fr)
+	case <-sc.writeGone:
+		ReleaseFrameHeader(fr)
+	}
+}
+
+// limitWrites bounds every write to the socket from now on, the one in
+// progress included.
+func (sc *serverConn) limitWrites(d time.Duration) {
+	sc.writeLimit.Store(int64(d))
+
+	if sc.c != nil {
+		_ = sc.c.SetWriteDeadline(time.Now().Add(d))
 	}
 }
 
@@ -1838,6 +1871,12 @@ func (sc *serverConn) writeLoop() {
 	buffered := 0
 
 	send := func(fr *FrameHeader) error {
+		// The limit is per write, so a peer that keeps reading keeps being
+		// served; one that has stopped fails the write, which ends this loop.
+		if d := sc.writeLimit.Load(); d > 0 {
+			_ = sc.c.SetWriteDeadline(time.Now().Add(time.Duration(d)))
+		}
+
 		_, err := fr.WriteTo(sc.bw)
 		if err == nil && (len(sc.writer) == 0 || buffered > 10) {
 			err = sc.bw.Flush()
